@@ -5,6 +5,7 @@
 package c13
 
 import (
+	"encoding/json"
 	"fmt"
 	"sort"
 	"strings"
@@ -87,6 +88,7 @@ var fixedDocs = []string{
 	`mutation {m4 {x y} m3 {y} m2}`,
 	`mutation {a: m3 {x} b: m3 {y} m5}`,
 	`mutation A {m1 m3 {l {x}}} query B {b}`,
+	`mutation {m3 {o {o {y}}} m1}`,
 }
 
 func one(x *explore.X, f *execx.Fixture, depth int) result { return oneDoc(x, f, depth, -1) }
@@ -164,6 +166,13 @@ func oneDoc(x *explore.X, f *execx.Fixture, depth int, fixed int) result {
 	if obs.Panic != nil {
 		res.bad = fmt.Sprintf("panic: %v", obs.Panic)
 		return res
+	}
+	// everything deferred has been forced when the response is handed over
+	if obs.Result != nil {
+		if _, err := json.Marshal(obs.Result.Data); err != nil {
+			res.bad = fmt.Sprintf("a deferred value was never forced: the response data is not serialisable (%v); events %v", err, res.evs)
+			return res
+		}
 	}
 	exp := model.Execute(f.G, doc, opName, vars, f.W)
 	idx := map[string]int{}
